@@ -37,6 +37,10 @@ type OnceSpec struct {
 	// Expect returns the number of discharges required at an exit (return
 	// statement or nil for falling off the end); -1 = do not care.
 	Expect func(ret *ast.ReturnStmt) int
+	// NilGuard names the callback variable: on the branch edge where it is
+	// known to be nil there is nothing to call and the obligation counts as
+	// discharged.
+	NilGuard string
 }
 
 // state bits: count c in {0,1,2(=2+)} x pending p in {0,1}: bit (c*2+p)
@@ -261,11 +265,23 @@ func CheckOnce(f *Func, body *ast.BlockStmt, g *Graph, spec OnceSpec) OnceResult
 	_ = info
 	// edge transfer: resolve pending when the branch condition tests the pending variable
 	edgeResolve := func(b *cfg.Block, k int, st onceState) onceState {
-		if pend == nil {
+		if pend == nil && spec.NilGuard == "" {
 			return st
 		}
 		cond, tag, ok := g.condOf(b)
 		if !ok || tag != nil {
+			return st
+		}
+		if spec.NilGuard != "" {
+			for _, ft := range decompose(cond, k == 0, nil) {
+				if be, ok := unparen(ft.Cond).(*ast.BinaryExpr); ok && (be.Op == token.EQL || be.Op == token.NEQ) && exprStr(be.Y) == "nil" && exprStr(be.X) == spec.NilGuard {
+					if (be.Op == token.EQL) == ft.Val {
+						return st.inc()
+					}
+				}
+			}
+		}
+		if pend == nil {
 			return st
 		}
 		for _, ft := range decompose(cond, k == 0, nil) {
